@@ -517,6 +517,11 @@ func runParent(args []string) int {
 	nviol := 0
 	known := 0
 	_ = os.MkdirAll(filepath.Join(o.verif, "replays"), 0o755)
+	if stale, _ := filepath.Glob(filepath.Join(o.verif, "replays", o.check+"-"+o.tier+"-*.json")); len(stale) > 0 {
+		for _, f := range stale {
+			_ = os.Remove(f)
+		}
+	}
 	for _, s := range sigs {
 		v := merged.Violations[s]
 		isKnown := false
